@@ -53,7 +53,9 @@ def invariance_case(case, ctx):
     else:
         fn = dinucleotide_shuffle if case["refs"]["mode"] == "dinuc" else shuffle
         ns = case["refs"]["ns"]
-        refkw = lambda idx: dict(references=fn, n_shuffles=ns, random_state=case["refs"]["rs"])
+        import numpy as _np
+        rs_val = {"int": int, "np_int64": _np.int64, "np_int32": _np.int32}[case.get("seed_type", "int")](case["refs"]["rs"])
+        refkw = lambda idx: dict(references=fn, n_shuffles=ns, random_state=rs_val)
 
     def call(idx, bs):
         a = None if args is None else (args[0][idx],)
@@ -136,6 +138,7 @@ def strategy(draw):
     case = {"arch": arch, "seed": draw(st.integers(0, 10 ** 6)), "X": X, "refs": refs, "target": draw(st.integers(0, arch["T"] - 1)),
             "mode": draw(st.sampled_from(["processed", "raw", "hyp"])), "batch_sizes": bs, "subset": subset,
             "perm": list(draw(st.permutations(list(range(n))))), "override_between": draw(st.integers(0, 3)) == 0,
+            "seed_type": draw(st.sampled_from(["int", "int", "np_int64", "np_int32"])),
             "override_scale": draw(st.sampled_from([0.25, 0.5, 1.5, 2.0, 3.0, 5.0, 7.0]))}
     if draw(st.integers(0, 2)) == 0:
         case["argvals"] = [[draw(st.integers(-3, 3)), 10 * i + draw(st.integers(0, 3))] for i in range(n)]
